@@ -17,6 +17,8 @@ func init() {
 		Run:   runC15,
 		Trusted: []string{"package flag: Visit visits flags set on the command line, VisitAll all flags, Set goes through flag.Value.Set", "magiconair/properties.Get"},
 		Mutants: []mutant{
+			{Name: "glob cache size validated only when glob matching is on", File: "config/load.go", Old: "\tif cfg.GlobCacheSize < 0 {", New: "\tif !cfg.GlobMatchingDisabled && cfg.GlobCacheSize < 0 {", Expect: "C15.V1"},
+
 			{Name: "idle timeout flag bound to the keep-alive field", File: "config/load.go", Old: "f.DurationVar(&cfg.Proxy.IdleConnTimeout, \"proxy.idleconntimeout\", defaultConfig.Proxy.IdleConnTimeout,", New: "f.DurationVar(&cfg.Proxy.KeepAliveTimeout, \"proxy.idleconntimeout\", defaultConfig.Proxy.IdleConnTimeout,", Expect: "C15.R1"},
 			{Name: "flush interval default from the global one", File: "config/load.go", Old: "f.DurationVar(&cfg.Proxy.FlushInterval, \"proxy.flushinterval\", defaultConfig.Proxy.FlushInterval,", New: "f.DurationVar(&cfg.Proxy.FlushInterval, \"proxy.flushinterval\", defaultConfig.Proxy.GlobalFlushInterval,", Expect: "C15.R1"},
 			{Name: "two flags differ only in case", File: "config/load.go", Old: "\"registry.consul.allowStale\"", New: "\"registry.consul.requireconsistent\"", Expect: "C15.R1"},
@@ -449,7 +451,15 @@ func runC15V1(c *Ctx) {
 						_ = seen
 						if len(s.Instrs) > 0 {
 							if ret, ok := s.Instrs[len(s.Instrs)-1].(*ssa.Return); ok && len(ret.Results) == 2 && !isNilConst(ret.Results[1]) {
-								found = true
+								// ... and the test is made for every configuration that load accepts
+								for _, sb := range load.Blocks {
+									if len(sb.Instrs) == 0 {
+										continue
+									}
+									if sr, ok := sb.Instrs[len(sb.Instrs)-1].(*ssa.Return); ok && len(sr.Results) == 2 && isNilConst(sr.Results[1]) && b.Block().Dominates(sb) {
+										found = true
+									}
+								}
 							}
 						}
 					}
